@@ -38,7 +38,7 @@ CONFIG = dict(
 )
 
 ENTRY_POINTS = ["parse", "stacked", "decompile", "unparse", "trace", "check_safety", "is_likely_safe",
-                "summaries", "cli_decompile", "cli_trace", "cli_check_safety", "repeat", "nonseekable", "cli_stdin"]
+                "summaries", "cli_decompile", "cli_trace", "cli_check_safety", "repeat", "nonseekable", "cli_stdin", "ml_env_active"]
 
 CRASH_INPUTS = [
     # test/test_crashes.py
@@ -280,6 +280,33 @@ def make_runner(mods, ctx, data, ep, paths):
             finally:
                 sys.stdin = old
         return go_cli
+    if ep == "ml_env_active":
+        # the same inspections while the safe ML environment is armed, its additions naming what the input names
+        import fickling.hook as hook
+        adds = ["vp_canary_0.g", "vp_canary_1.sub.f", "vp_loaded_canary.attr", "vp_sink.hit", "os.system", "argparse.Namespace",
+                "wsgiref.util.FileWrapper", "xmlrpc.client.ServerProxy"]
+
+        def go_ml():
+            import pickle as _p
+            import _pickle as _cp
+            saved = (_p.load, _p.loads, _cp.load, _cp.loads)
+            hook.activate_safe_ml_environment(also_allow=adds)
+            errs = []
+            try:
+                for fn in (lambda: analysis.check_safety(f.Pickled.load(data)).severity, lambda: fickling.is_likely_safe(inp),
+                           lambda: f.Pickled.load(data).ast, lambda: cli_run(["fickling", "--check-safety", "--json-output", rep, inp])):
+                    try:
+                        with contextlib.redirect_stdout(io.StringIO()), contextlib.redirect_stderr(io.StringIO()):
+                            fn()
+                    except RecursionError:
+                        errs.append("RecursionError")
+                    except Exception as e:
+                        errs.append(type(e).__name__)
+            finally:
+                hook.remove_hook()
+                _p.load, _p.loads, _cp.load, _cp.loads = saved
+            return errs
+        return go_ml
     if ep == "repeat":
         # the same bytes inspected again and again in one process (each inspection may raise): whatever an earlier,
         # possibly failed, inspection left behind must not make a later one execute anything
@@ -335,7 +362,7 @@ def observe_case(ctx, mods, watch, label, data, ep, interesting, parent_tokens=f
     agg.hist("outcomes", outcome[0] + (":" + type(outcome[1]).__name__ if outcome[0] == "exc" else ""))
     for name, _s in obs["events"]:
         agg.hist("audit_event_kinds", name)
-    found = effects.classify(obs, declared_outputs=(rep, inp) if ep in ("cli_check_safety", "repeat") else ())
+    found = effects.classify(obs, declared_outputs=(rep, inp) if ep in ("cli_check_safety", "repeat", "ml_env_active") else ())
     # the harness wrote the input file itself before the marks; the report is the one declared output
     for k, what in found:
         agg.violation(f"{k}@{ep}", what, {"label": label, "hex": data.hex() if len(data) < 3000 else data[:3000].hex(),
